@@ -349,8 +349,9 @@ fn shuffle<T>(rng: &mut Rng, xs: &mut [T]) {
     }
 }
 
-/// arbitrary unsorted levels, duplicates and zero amounts allowed (at most 16: `sort_unstable_by`
-/// is an insertion sort, hence stable, up to 20 elements)
+/// arbitrary unsorted levels, duplicates and zero amounts allowed (at most `max_levels` = 12 / 16: a
+/// size choice only — the constructors use the stable `sort_by`, as does the model; a longer
+/// duplicate-price list is in corpus/C05M)
 fn any_levels(rng: &mut Rng, grid: &Grid, max_levels: usize, zero_pct: u64) -> Vec<String> {
     let len = if rng.chance(15) { 0 } else { rng.range(1, max_levels as i64) as usize };
     (0..len)
@@ -396,8 +397,8 @@ fn level_case(out: &mut Out, rng: &mut Rng) {
 }
 
 fn manager_case(out: &mut Out, rng: &mut Rng, thorough: bool) {
-    // a long book (binary search over many levels; distinct prices only, so the unstable sort of
-    // more than 20 elements is deterministic) or a short one (duplicates / zeros allowed)
+    // a long book (binary search over many levels; distinct prices) or a short one (duplicates /
+    // zeros allowed)
     let long = rng.chance(12);
     let grid = if long { Grid::new(rng, 24, if thorough { 70 } else { 48 }) } else { Grid::new(rng, 2, if thorough { 10 } else { 7 }) };
     let max_levels = if thorough { 16 } else { 12 };
